@@ -33,22 +33,33 @@ struct Ctx {
     bool nontrivial;
 };
 
-// observe an extents object against the expected shape
-template <typename X>
-void check_ext(X const& x, Arr const& shape, char const* what = "")
+// observe an extents object against the expected shape (template part: read the extents; the comparison is shared code)
+#define NOINL __attribute__((noinline))
+NOINL void check_arr(Arr const& got, unsigned dynmask, std::size_t R, Arr const& shape, char const* what)
 {
-    constexpr std::size_t R = X::rank();
     for (std::size_t r = 0; r < R; ++r) {
-        bool const isdyn = X::static_extent(r) == dyn;
-        std::string n    = std::string(what) + (isdyn ? "extent@dynamic-pos" : "extent@static-pos");
-        vf::eq_int(n.c_str(), (LL)x.extent(r), shape[r]);
+        std::string n = std::string(what) + (((dynmask >> r) & 1U) ? "extent@dynamic-pos" : "extent@static-pos");
+        vf::eq_int(n.c_str(), got[r], shape[r]);
     }
 }
-void begin(Ctx const& c, char const* op) { vf::crumb(SUBJ.c_str(), op, c.sit.c_str(), "E=<%s> shape=%s", c.p->name, c.desc.c_str()); }
-void done(Ctx const& c, char const* op, std::uint64_t extra = 0) { vf::cover(op, vf::mix(c.h, extra), c.nontrivial); }
+template <typename X>
+NOINL void check_ext(X const& x, Arr const& shape, char const* what = "")
+{
+    Arr got{};
+    unsigned dm = 0;
+    for (std::size_t r = 0; r < X::rank(); ++r) {
+        got[r] = (LL)x.extent(r);
+        dm |= (X::static_extent(r) == dyn ? 1U : 0U) << r;
+    }
+    check_arr(got, dm, X::rank(), shape, what);
+}
+NOINL void begin(Ctx const& c, char const* op) { vf::crumb(SUBJ.c_str(), op, c.sit.c_str(), "E=<%s> shape=%s", c.p->name, c.desc.c_str()); }
+NOINL void done(Ctx const& c, char const* op, std::uint64_t extra = 0) { vf::cover(op, vf::mix(c.h, extra), c.nontrivial); }
+NOINL void expect_int(char const* n, LL got, LL exp) { vf::eq_int(n, got, exp); }
+NOINL void expect_bool(char const* n, bool got, bool exp) { vf::eq_bool(n, got, exp); }
 
 template <typename E, typename A>
-void ctor_dynamic_values(Ctx const& c, char const* op)
+NOINL void ctor_dynamic_values(Ctx const& c, char const* op)
 {
     begin(c, op);
     std::array<LL, MAXR> d{};
@@ -61,7 +72,7 @@ void ctor_dynamic_values(Ctx const& c, char const* op)
     check_ext(e, c.shape);
 }
 template <typename E, typename A>
-void ctor_all_values(Ctx const& c, char const* op)
+NOINL void ctor_all_values(Ctx const& c, char const* op)
 {
     begin(c, op);
     E e = [&]<std::size_t... Is>(std::index_sequence<Is...>) { return E(static_cast<A>(c.shape[Is])...); }(std::make_index_sequence<E::rank()>{});
@@ -80,7 +91,7 @@ std::array<LL, MAXR> source_values(Arr const& shape)
     return d;
 }
 template <typename E, std::size_t N, typename A>
-void ctor_array(Ctx const& c, char const* op)
+NOINL void ctor_array(Ctx const& c, char const* op)
 {
     auto d = source_values<E, N>(c.shape);
     etl::array<A, N> a{};
@@ -91,7 +102,7 @@ void ctor_array(Ctx const& c, char const* op)
     check_ext(e, c.shape);
 }
 template <typename E, std::size_t N, typename A>
-void ctor_span(Ctx const& c, char const* op)
+NOINL void ctor_span(Ctx const& c, char const* op)
 {
     auto d = source_values<E, N>(c.shape);
     vf::Buf<A> b(N); // exact-size block: reading an (N+1)-th value is an ASan report
@@ -122,7 +133,7 @@ struct reindex<E, I2, std::index_sequence<Is...>> {
 
 // From -> To conversion (both directions are in the domain: the run-time shape matches every static extent)
 template <typename To, typename From>
-void convert(Ctx const& c, char const* op, std::uint64_t salt)
+NOINL void convert(Ctx const& c, char const* op, std::uint64_t salt)
 {
     static_assert(std::is_constructible_v<To, From const&>);
     From f = make_extents<From>(c.shape);
@@ -131,11 +142,11 @@ void convert(Ctx const& c, char const* op, std::uint64_t salt)
     done(c, op, salt);
     check_ext(t, c.shape);
     // equality across the two types (same shape)
-    vf::eq_bool("operator==:converted", t == f, true);
+    expect_bool("operator==:converted", t == f, true);
 }
 
 template <typename E, std::size_t K>
-void widen_narrow_at(Ctx const& c)
+NOINL void widen_narrow_at(Ctx const& c)
 {
     if constexpr (E::static_extent(K) != dyn) {
         using W = typename widen_at<E, K, std::make_index_sequence<E::rank()>>::type;
@@ -167,10 +178,10 @@ struct Run {
             // observers
             E e = make_extents<E>(sh);
             begin(c, "observers");
-            vf::eq_int("rank", (LL)e.rank(), (LL)c.p->rank);
-            vf::eq_int("rank_dynamic", (LL)e.rank_dynamic(), (LL)c.p->rd);
+            expect_int("rank", (LL)e.rank(), (LL)c.p->rank);
+            expect_int("rank_dynamic", (LL)e.rank_dynamic(), (LL)c.p->rd);
             for (std::size_t r = 0; r < R; ++r) {
-                vf::eq_bool("static_extent", E::static_extent(r) == c.p->st[r], true);
+                expect_bool("static_extent", E::static_extent(r) == c.p->st[r], true);
             }
             done(c, "observers");
             // products (public helpers every mapping is built on)
@@ -180,7 +191,7 @@ struct Run {
                 begin(c, "fwd_prod_of_extents(i)");
                 auto got = e.fwd_prod_of_extents(i);
                 done(c, "fwd_prod_of_extents(i)", i);
-                vf::eq_int(i == R ? "prod:i=rank" : "prod:i<rank", (LL)got, exp);
+                expect_int(i == R ? "prod:i=rank" : "prod:i<rank", (LL)got, exp);
             }
             for (std::size_t i = 0; i < R; ++i) {
                 LL exp = 1;
@@ -188,7 +199,7 @@ struct Run {
                 begin(c, "rev_prod_of_extents(i)");
                 auto got = e.rev_prod_of_extents(i);
                 done(c, "rev_prod_of_extents(i)", i);
-                vf::eq_int("prod", (LL)got, exp);
+                expect_int("prod", (LL)got, exp);
             }
             // default construction: dynamic extents are zero, static ones as declared
             {
@@ -211,7 +222,7 @@ struct Run {
                 done(c, "operator=(extents const&)");
                 check_ext(as, sh);
                 begin(c, "operator==");
-                vf::eq_bool("same-object", e == cp, true);
+                expect_bool("same-object", e == cp, true);
                 done(c, "operator==");
             }
             // operator== against a different shape (one dynamic extent changed) and a different rank
@@ -223,16 +234,16 @@ struct Run {
                     E e2  = make_extents<E>(o);
                     D d2  = make_extents<D>(o);
                     begin(c, "operator==");
-                    vf::eq_bool("one-extent-differs", e == e2, false);
-                    vf::eq_bool("one-extent-differs,other-type", e == d2, false);
-                    vf::eq_bool("operator!=", e != e2, true);
+                    expect_bool("one-extent-differs", e == e2, false);
+                    expect_bool("one-extent-differs,other-type", e == d2, false);
+                    expect_bool("operator!=", e != e2, true);
                     done(c, "operator==", 100 + r);
                 }
             }
             {
                 etl::dextents<Idx, R + 1> bigger{};
                 begin(c, "operator==");
-                vf::eq_bool("rank-differs", e == bigger, false);
+                expect_bool("rank-differs", e == bigger, false);
                 done(c, "operator==", 200);
             }
             // class template argument deduction from integers: extents<size_t, dyn...>
